@@ -211,3 +211,4 @@ class PostprocessConfig:
 from pyvc.native import native_monitor  # noqa: E402
 
 EXTRA_CHECKS = [native_monitor("C06", "contracts.c06_native", "monitor_suggestions", "suggestions", "about 2050 (thorough 7050) scenarios: random / grid / GP / Hyperband / DEHB / PBT suggesters over 35 enumerated and 12 (40) random finite spaces (<= 40 configurations, run until exhausted), mixed and infinite spaces, 6 (10) points_to_evaluate variants, histories with finished / failed / pending trials; reference membership and enumeration built from the domain specs only")]
+EXTRA_CHECKS = list(EXTRA_CHECKS) + [native_monitor("C06", "contracts.c07", "monitor_hp_ranges", "hp_ranges[catalogue]", "C07's catalogue of domains and active sub-ranges: every decoded / sampled value is a member of its domain (the suggesters decode through the same ranges)")]
